@@ -49,12 +49,21 @@ def showRes : Res → String
 def isLetters (s : Style) : Bool := s = .upperLetters ∨ s = .lowerLetters
 def isRoman (s : Style) : Bool := s = .upperRoman ∨ s = .lowerRoman
 
+/-- `enc (pfx ++ Spec.number style n)` without materialising the (n−1)/26+1 letters Table 159
+prescribes for a huge `n` -/
+def specEnc (style : Style) (pfx : List Nat) (n : Nat) : String :=
+  let k := (n - 1) / 26 + 1
+  if isLetters style ∧ k > 64 then
+    let c := (if style = .upperLetters then 65 else 97) + (n - 1) % 26
+    s!"L{pfx.length + k}.{hexOfBytes ((pfx ++ List.replicate 16 c).take 16)}.{hexOfBytes (List.replicate 16 c)}"
+  else enc (pfx ++ charsToBytes (Spec.number style n))
+
 /-- verdict for one label: 0 ok/na, 1 bijective-26 deviation, 2 any other deviation -/
 def judgeNumber (style : Style) (pfx : List Nat) (n : Nat) (implTok : String) : Nat :=
   if style ≠ .none ∧ n > U32_MAX then 0            -- beyond Annex C integer limits: not judged
   else if (isLetters style ∨ isRoman style) ∧ n = 0 then 0   -- /St shall be ≥ 1: not judged
   else
-    let want := "=" ++ enc (pfx ++ charsToBytes (Spec.number style n))
+    let want := "=" ++ specEnc style pfx n
     if implTok = want then 0
     else if isLetters style ∧
         implTok = "=" ++ enc (pfx ++ charsToBytes (toLetters n (style = .upperLetters))) then 1
@@ -182,7 +191,9 @@ def readPageLabels (raw : List Nat) : Option (List (Nat × Label)) :=
     | _ => none
   | _ => none
 
-def specLabelOpt (t : List (Nat × Label)) (idx : Nat) : Option (List Nat) := Spec.label t idx
+/-- `(Spec.label t idx).map enc`, computed without materialising huge letter runs -/
+def specLabelOpt (t : List (Nat × Label)) (idx : Nat) : Option String :=
+  (Spec.applicable t idx).map fun (s, l) => specEnc l.style (l.pfx.getD []) (l.start + (idx - s))
 
 def handle (req impl : String) : String × String :=
   match req.splitOn " " with
